@@ -56,6 +56,42 @@ def make(lsp: _t.Any) -> _t.Dict[str, _t.Any]:
         position: _t.Optional[lsp.Position] = None
         inner: _t.Optional[UserBroken] = None
 
+    # the user's subclasses of lsprotocol classes (class hierarchies: anything looked up through the
+    # MRO or cached on a class is shared between a class and its subclasses)
+    @attrs.define
+    class TracedPosition(lsp.Position):
+        trace_id: _t.Optional[str] = None
+        origin_file: _t.Optional[str] = None
+
+    @attrs.define
+    class TaggedRange(lsp.Range):
+        tag_name: str = "t"
+        line_count: _t.Optional[int] = None
+
+    @attrs.define
+    class DeepTraced(TracedPosition):
+        hop_count: int = 0
+
+    # the user's own scalar type (not an attrs class) for which THEY register predicate hooks
+    class UserUri:  # deliberately not a str subclass: cattrs would find its str hook before any predicate
+        def __init__(self, value: str) -> None:
+            self.value = value
+
+        def __repr__(self) -> str:
+            return f"UserUri({self.value!r})"
+
+        def __eq__(self, other: object) -> bool:
+            return isinstance(other, UserUri) and other.value == self.value
+
+        __hash__ = None  # type: ignore[assignment]
+
+    @attrs.define
+    class UserDoc:
+        uri: UserUri
+        version: int = 0
+        links: _t.List[UserUri] = attrs.field(factory=list)
+
     assert TwinA is not TwinB and TwinA.__qualname__ == TwinB.__qualname__ and TwinA.__module__ == TwinB.__module__
     return {"UserThing": UserThing, "UserBox": UserBox, "TwinA": TwinA, "TwinB": TwinB, "LocalA": _local(0), "LocalB": _local(1),
-            "UserBroken": UserBroken, "UserHolder": UserHolder}
+            "UserBroken": UserBroken, "UserHolder": UserHolder,
+            "UserUri": UserUri, "UserDoc": UserDoc, "TracedPosition": TracedPosition, "TaggedRange": TaggedRange, "DeepTraced": DeepTraced}
